@@ -324,6 +324,10 @@ func (t *decTr) stmt(s ast.Stmt) string {
 				}
 				return "DRange " + q(v.Name) + " " + q(t.render(x.X)) + " " + body
 			}
+			// for k := range m { body }: the keys of m
+			if x.Value == nil && k.Name != "_" {
+				return "DRange " + q(k.Name) + " " + q("keys of "+t.render(x.X)) + " " + t.stmts(x.Body.List)
+			}
 		}
 	case *ast.BranchStmt:
 		if x.Tok == token.CONTINUE && x.Label == nil {
